@@ -128,6 +128,10 @@ func familyOf(name string) string {
 	if i := strings.Index(name, "@exit"); i >= 0 {
 		return name[:i]
 	}
+	// a function with one exit has no exit suffix: the name is its own family
+	if strings.Contains(name, "#post[") || strings.Contains(name, "#panics<=") || strings.Contains(name, "#frame[") {
+		return name
+	}
 	return ""
 }
 
@@ -330,6 +334,14 @@ func (r *Report) Finish() int {
 			continue
 		}
 		cls := lockClass(lock, fams, r.Tags, v.Obl.Name)
+		if cls == "" && !r.UpdateLock {
+			if ic, ok := r.inherited(lock)[v.Obl.Name]; ok {
+				cls = ic
+				if ic != "u" && v.Status != "discharged" {
+					fmt.Printf("  RENAMED   %s takes the place of a claimed obligation that is no longer generated\n", v.Obl.Name)
+				}
+			}
+		}
 		claimed := cls == "q" || (cls == "t" && r.Tier == "thorough") || cls == "c"
 		switch v.Status {
 		case "discharged":
@@ -353,7 +365,7 @@ func (r *Report) Finish() int {
 				} else {
 					report(v, "refuted: this obligation is discharged on the unchanged tree (obligations.lock); now a solver returns sat with a model. The model is a pre-state of the function; it could not be replayed mechanically on the real code", true)
 				}
-			case cls == "" && lockHasFunc(lock, r.Tags, v.Func) && !r.renamedUnclaimed(lock, v):
+			case cls == "" && lockHasFunc(lock, r.Tags, v.Func):
 				fmt.Printf("  REFUTED   %-9s %5.2fs %s (new obligation, not in obligations.lock)\n", v.Backend, v.TimeS, v.Obl.Name)
 				if rp, ok := r.tryReplay(v); ok {
 					violations++
@@ -553,50 +565,104 @@ func (r *Report) Finish() int {
 	return 0
 }
 
-// renamedUnclaimed: a new refuted obligation may be an unclaimed ("u") obligation of the same
-// function and kind under a new name (names contain the source text of the line). Every "u" entry
-// that this run did not generate is matched with the most similar new refuted obligation; only
-// the matched ones stay unclaimed, the others are new failures.
-func (r *Report) renamedUnclaimed(lock map[string]string, v *Verdict) bool {
-	if r.renamed == nil {
-		r.renamed = map[string]bool{}
-		have := map[string]bool{}
-		for _, w := range r.Verdicts {
-			have[lockKey(r.Tags, w.Obl.Name)] = true
+// Renamed obligations. Obligation names contain the source text of their line, so an edit of a
+// statement renames its obligations. Every lock entry of a verified function that this run did not
+// generate ("vanished") is matched with the most similar new obligation of the same function and
+// kind (greedy, most similar pair first, one-to-one); the new obligation inherits the class of the
+// vanished one: a renamed unclaimed obligation stays unclaimed, a renamed claimed one stays claimed
+// (its statement was proved safe / its clause was proved before the edit, so it must be now).
+func (r *Report) inherited(lock map[string]string) map[string]string {
+	if r.inheritedCls != nil {
+		return r.inheritedCls
+	}
+	r.inheritedCls = map[string]string{}
+	have := map[string]bool{}
+	ran := map[string]bool{}
+	for _, w := range r.Verdicts {
+		have[lockKey(r.Tags, w.Obl.Name)] = true
+		ran[w.Func] = true
+	}
+	kindOf := func(name string) string {
+		if i := strings.Index(name, "["); i >= 0 {
+			return name[:i]
 		}
-		// candidates: new refuted obligations, grouped by function#kind
-		kindOf := func(name string) string {
-			if i := strings.Index(name, "["); i >= 0 {
-				return name[:i]
-			}
-			return name
+		return name
+	}
+	funcOf := func(name string) string {
+		if i := strings.Index(name, "#"); i >= 0 {
+			return name[:i]
 		}
-		cands := map[string][]string{}
-		for _, w := range r.Verdicts {
-			if w.Status == "refuted" && lock[lockKey(r.Tags, w.Obl.Name)] == "" {
-				cands[kindOf(w.Obl.Name)] = append(cands[kindOf(w.Obl.Name)], w.Obl.Name)
-			}
+		return name
+	}
+	newBy := map[string][]string{}
+	for _, w := range r.Verdicts {
+		if w.Obl.Cover {
+			continue
 		}
-		for k, cls := range lock {
-			if cls != "u" || !strings.HasPrefix(k, r.Tags+"\t") || have[k] {
-				continue
-			}
-			old := strings.TrimPrefix(k, r.Tags+"\t")
-			best, bestScore := "", -1
-			for _, c := range cands[kindOf(old)] {
-				if r.renamed[c] {
-					continue
-				}
-				if sc := commonPrefix(old, c); sc > bestScore {
-					best, bestScore = c, sc
-				}
-			}
-			if best != "" {
-				r.renamed[best] = true
-			}
+		if _, ok := lock[lockKey(r.Tags, w.Obl.Name)]; !ok {
+			newBy[kindOf(w.Obl.Name)] = append(newBy[kindOf(w.Obl.Name)], w.Obl.Name)
 		}
 	}
-	return r.renamed[v.Obl.Name]
+	type pair struct {
+		old, nw, cls string
+		score        int
+	}
+	var pairs []pair
+	for k, cls := range lock {
+		if !strings.HasPrefix(k, r.Tags+"\t") || have[k] {
+			continue
+		}
+		old := strings.TrimPrefix(k, r.Tags+"\t")
+		if !ran[funcOf(old)] || familyOf(old) != "" {
+			continue
+		}
+		for _, c := range newBy[kindOf(old)] {
+			pairs = append(pairs, pair{old, c, cls, commonSubstr(old, c)})
+		}
+	}
+	sort.Slice(pairs, func(i, j int) bool {
+		if pairs[i].score != pairs[j].score {
+			return pairs[i].score > pairs[j].score
+		}
+		if pairs[i].old != pairs[j].old {
+			return pairs[i].old < pairs[j].old
+		}
+		return pairs[i].nw < pairs[j].nw
+	})
+	usedOld, usedNew := map[string]bool{}, map[string]bool{}
+	for _, p := range pairs {
+		if usedOld[p.old] || usedNew[p.nw] {
+			continue
+		}
+		usedOld[p.old], usedNew[p.nw] = true, true
+		r.inheritedCls[p.nw] = p.cls
+	}
+	return r.inheritedCls
+}
+
+// commonSubstr: length of the longest common substring after the kind prefix.
+func commonSubstr(a, b string) int {
+	if i := strings.Index(a, "["); i >= 0 {
+		a = a[i:]
+	}
+	if i := strings.Index(b, "["); i >= 0 {
+		b = b[i:]
+	}
+	best := 0
+	prev := make([]int, len(b)+1)
+	for i := 1; i <= len(a); i++ {
+		cur := make([]int, len(b)+1)
+		for j := 1; j <= len(b); j++ {
+			if a[i-1] == b[j-1] {
+				cur[j] = prev[j-1] + 1
+				if cur[j] > best {
+					best = cur[j]
+				}
+			}
+		}
+		prev = cur
+	}
+	return best
 }
 
 func commonPrefix(a, b string) int {
